@@ -627,7 +627,11 @@ pub fn run(ctx: &Ctx) -> i32 {
         struct A {
             n: u64,
         }
-        let accs = par_fold(total, |mut i, a: &mut A| {
+        // second half of the index space: the same sequences with one name for all blocks (old LIDER files repeat a
+        // block under every wall) and a distinguishing attribute value per occurrence
+        let accs = par_fold(2 * total, |i, a: &mut A| {
+            let same_name = i >= total;
+            let mut i = i % total;
             let mut d = 2;
             loop {
                 let c = (nk as u64).pow(d);
@@ -640,12 +644,17 @@ pub fn run(ctx: &Ctx) -> i32 {
             let mut seq = vec![];
             for p in 0..d {
                 let mut b = kinds[(i % nk as u64) as usize].clone();
-                b.name = format!("{}_{}", b.name, p);
+                if same_name {
+                    b.name = "Same name".into();
+                    b.attrs.push(("ZZ-OCCURRENCE".into(), n(p as f32 + 0.5)));
+                } else {
+                    b.name = format!("{}_{}", b.name, p);
+                }
                 seq.push(b);
                 i /= nk as u64;
             }
             let text = print_doc(&seq, &Layout::plain());
-            let case = || json!({"part": "parent-tracking", "types": seq.iter().map(|b| b.btype.clone()).collect::<Vec<_>>(), "text": text});
+            let case = || json!({"part": "parent-tracking", "same_name": same_name, "types": seq.iter().map(|b| b.btype.clone()).collect::<Vec<_>>(), "text": text});
             a.n += 1;
             match catch(std::panic::AssertUnwindSafe(|| build_blocks(&text))) {
                 Ok(Ok(got)) => {
@@ -800,7 +809,7 @@ pub fn run(ctx: &Ctx) -> i32 {
     ctx.outcome_merge(&outcomes);
     ctx.finish(
         "model_checking",
-        &format!("project documents (every supported block type; 3 abstract variants: all attributes / mandatory only / legacy LIDER) printed in the full product of layout switches {{LF,CRLF}} x attribute order{{file,reversed,rotated}} x number format{{shortest, %.6f, right-aligned, exponent with explicit sign}} x words{{bare,quoted}} x lists{{one line, broken after commas, closing paren alone}} x comments/blank lines{{none, between, inside}} x indentation{{none, tab, 12 spaces + trailing blanks}} x preamble{{none, LIDER}} = 1728 layouts: build_blocks recovers name, type, parent and every attribute value (numbers exactly, lists through extract_*vec), Data::new's typed elements carry the written values / documented defaults; parent tracking on all sequences of length 2..{} over 11 block kinds and all prefixes of all cyclic rotations of the document; {} real files re-printed by an independent lexer in {} uniform layouts must parse to Debug-identical Data, and every attribute of a real file whose written value is a numeric literal must be recovered as that number; KyG (old/new columns x ./, x 0..2 windows) and tbl (0..3 elements x 0..3 spaces x quoting) printers", depth, files.len(), nlay),
+        &format!("project documents (every supported block type; 3 abstract variants: all attributes / mandatory only / legacy LIDER) printed in the full product of layout switches {{LF,CRLF}} x attribute order{{file,reversed,rotated}} x number format{{shortest, %.6f, right-aligned, exponent with explicit sign}} x words{{bare,quoted}} x lists{{one line, broken after commas, closing paren alone}} x comments/blank lines{{none, between, inside}} x indentation{{none, tab, 12 spaces + trailing blanks}} x preamble{{none, LIDER}} = 1728 layouts: build_blocks recovers name, type, parent and every attribute value (numbers exactly, lists through extract_*vec), Data::new's typed elements carry the written values / documented defaults; parent tracking on all sequences of length 2..{} over 11 block kinds (each also with one shared name for all its blocks and a distinguishing attribute value per occurrence) and all prefixes of all cyclic rotations of the document; {} real files re-printed by an independent lexer in {} uniform layouts must parse to Debug-identical Data, and every attribute of a real file whose written value is a numeric literal must be recovered as that number; KyG (old/new columns x ./, x 0..2 windows) and tbl (0..3 elements x 0..3 spaces x quoting) printers", depth, files.len(), nlay),
         true,
         json!({}),
     )
